@@ -124,8 +124,9 @@ func Sched(t *simkit.Tape, o *simkit.Outcome, full bool) {
 		}
 		o.Steps += r.Res.Steps
 		o.Fault(fmt.Sprintf("cli-strategy-%d", strategy))
-		for reason, n := range r.Res.BlockedSeen {
-			o.ProbeN("blocked:"+reason, n)
+		for _, reason := range simkit.SortedKeys(r.Res.BlockedSeen) {
+			// how often a blocked task was looked at depends on timing: count runs, not looks
+			o.Probe("blocked:" + reason)
 		}
 		if r.Res.MaxParallel >= 2 {
 			o.Probe("two-or-more-workers-live")
